@@ -67,7 +67,7 @@ def Tce.iterate (tc : TapCtx) (t : Tce) : TceState × Tce :=
     (if res then .done else .failed, t)
 
 /-- `Description()`: the listing lines of the commitment phase -/
-def Tce.descriptionCount (t : Tce) : Nat := t.pathLen + 2
+def Tce.descriptionCount (t : Tce) : Nat := t.pathLen + 1
 
 /-- one entry of the parallel history vectors -/
 structure Snapshot where
@@ -131,7 +131,7 @@ def setupEnvironment (stack : List Bytes) (script : Bytes) (flags : Nat) (sv : S
   | .ok e =>
     if !successor.isEmpty && hasFlag flags Flag.SIGPUSHONLY && !isPushOnly script then .error .SIG_PUSHONLY
     else if sv == .TAPSCRIPT && scanOpSuccess allowDisabled script then .error .DISCOURAGE_OP_SUCCESS
-    else .ok { e with successor := successor, done := e.done && successor.isEmpty, tce := tce,
+    else .ok { e with successor := successor, done := e.done && successor.isEmpty && tce.isNone, tce := tce,
                       see := { e.see with allowDisabled := allowDisabled, execdata := execdata,
                                           pretendMap := pretendMap, pretendKeys := pretendKeys } }
 
